@@ -56,7 +56,82 @@ fn run_rop(sh: &Shared, op: ROp) -> (u64, Option<UBig>) {
     let (x, y) = (uval(sh, op.a), uval(sh, op.b));
     let (p, q) = (ival(sh, op.a), ival(sh, op.b));
     let mut give = None;
-    match op.kind % 26 {
+    match op.kind % 34 {
+        26 => {
+            // by-reference subtraction in both orders (one of them is the larger), squaring, small powers
+            let r = if x >= y { x - y } else { y - x };
+            dig_ubig(&mut d, &r);
+            let r = x.sqr();
+            dig_ubig(&mut d, &r);
+            if x.bit_len() < 1200 {
+                let r = x.pow(2 + op.n as usize % 3);
+                dig_ubig(&mut d, &r);
+            }
+        }
+        27 => {
+            for c in x.to_chunks(1 + op.n as usize % 130).iter() {
+                dig_ubig(&mut d, c);
+            }
+            for w0 in x.as_words() {
+                d.u64(*w0 as u64);
+            }
+            let (sg, ws) = p.as_sign_words();
+            d.u64(sg as u64);
+            d.u64(ws.len() as u64);
+        }
+        28 => {
+            d.bytes(format!("{}", x.in_radix(2 + op.n as u32 % 35)).as_bytes());
+            d.bytes(format!("{:#b}", y).as_bytes());
+            d.bytes(format!("{:?}", p).as_bytes());
+        }
+        29 => {
+            if !(x.is_zero() && y.is_zero()) {
+                let (g, s, t) = dashu_base::ExtendedGcd::gcd_ext(x, y);
+                dig_ubig(&mut d, &g);
+                dig_ibig(&mut d, &s);
+                dig_ibig(&mut d, &t);
+            }
+            if !(p.is_zero() && q.is_zero()) {
+                let g = dashu_base::Gcd::gcd(p, q);
+                dig_ubig(&mut d, &g);
+            }
+        }
+        30 => {
+            if !q.is_zero() {
+                let (a2, b2) = dashu_base::DivRemEuclid::div_rem_euclid(p, q);
+                dig_ibig(&mut d, &a2);
+                dig_ubig(&mut d, &b2);
+                let r = p / q;
+                dig_ibig(&mut d, &r);
+            }
+        }
+        31 => {
+            // the same shared value on both sides of an arithmetic operator
+            let r = x * x;
+            dig_ubig(&mut d, &r);
+            let r = p + p;
+            dig_ibig(&mut d, &r);
+            let r = x & x;
+            dig_ubig(&mut d, &r);
+            d.u64((p - p).is_zero() as u64);
+        }
+        32 => {
+            if !y.is_zero() {
+                let ring = dashu_int::fast_div::ConstDivisor::new(y.clone());
+                let e = ring.reduce(x.clone());
+                dig_ubig(&mut d, &e.residue());
+                let r = x % &ring;
+                dig_ubig(&mut d, &r);
+            }
+        }
+        33 => {
+            let r = dashu_base::CubicRoot::cbrt(x);
+            dig_ubig(&mut d, &r);
+            let r = x.nth_root(2 + op.n as usize % 4);
+            dig_ubig(&mut d, &r);
+            d.u64(x.trailing_ones().unwrap_or(0) as u64);
+            d.u64(dashu_base::Signed::is_negative(p) as u64);
+        }
         16 => {
             d.i64(p.cmp(q) as i64);
             d.u64((p == q) as u64);
